@@ -41,7 +41,7 @@ def run(ctx):
     # the property where it is used: DiffManager.UpdateHeads history vs. FillDiff after a restart
     ctx.go_test("./ldiff", run="TestDiffManager$", timeout=2400, name="DiffManager: live space hash = hash after restart")
     # 4. code -> spec
-    files = ["u2_cur", "u3_cur", "u4_cur"]
+    files = ["u2_cur", "u3_cur", "u4_cur"] if thorough else ["u2_cur", "u3_cur"]
     lc.record_and_validate(ctx, tuples, files, "ObsCanonical", 150 if thorough else 12)
     if thorough:
         # binding self-test: one falsified counter in the log must be noticed
